@@ -2,7 +2,10 @@
 
 package generator
 
-import "github.com/atombender/go-jsonschema/internal/zzvrt"
+import (
+	"github.com/atombender/go-jsonschema/internal/zzvrt"
+	"github.com/atombender/go-jsonschema/pkg/schemas"
+)
 
 // HarnessC09: a property with a default: absent or null -> the decoded field equals the
 // default; present -> the document value is kept; the default literal type-checks.
@@ -122,4 +125,82 @@ func zzAssumeDefaultValid(s *zzSpec) bool {
 		zzvrt.Assume(zzLenOK(2, s.minItems, s.maxItems))
 	}
 	return true
+}
+
+// HarnessC09Siblings: two object schemas of the same shape that want the same Go type name
+// (definition names that normalise to one identifier, or equal titles under
+// --struct-name-from-title) and differ only in the default of their member: each position
+// keeps its own default.
+func HarnessC09Siblings() {
+	type dflt struct {
+		typ  string
+		a, b interface{}
+	}
+	ds := []dflt{{"integer", 1.0, 2.0}, {"string", "x", "y"}, {"boolean", true, false}, {"integer", 3.0, 3.0}}
+	dk := ds[zzvrt.Choice(len(ds))]
+	mk := func(def interface{}, title string) *schemas.Type {
+		return &schemas.Type{Type: schemas.TypeList{"object"}, Title: title,
+			Properties: map[string]*schemas.Type{"v": {Type: schemas.TypeList{dk.typ}, Default: def}}}
+	}
+	root := &schemas.Type{Type: schemas.TypeList{"object"}, Required: []string{"p", "q"}}
+	var defs schemas.Definitions
+	cfg := Config{DefaultPackageName: "example.com/gen", DefaultOutputName: "root.go", Warner: func(string) {},
+		Tags: []string{"json", "yaml", "mapstructure"}}
+	mode := ""
+	if zzvrt.Bool() {
+		mode = "colliding-definition-names"
+		defs = schemas.Definitions{"conf-a": mk(dk.a, ""), "conf_a": mk(dk.b, "")}
+		root.Properties = map[string]*schemas.Type{"p": {Ref: "#/$defs/conf-a"}, "q": {Ref: "#/$defs/conf_a"}}
+	} else {
+		mode = "equal-titles"
+		cfg.StructNameFromTitle = true
+		root.Properties = map[string]*schemas.Type{"p": mk(dk.a, "Settings"), "q": mk(dk.b, "Settings")}
+	}
+	sch := &schemas.Schema{ObjectAsType: (*schemas.ObjectAsType)(root), ID: "https://example.com/root", Definitions: defs}
+	g, err := New(cfg)
+	if err != nil {
+		zzvrt.Unreachable("New failed")
+	}
+	zzvrt.Witness("schema", sch)
+	zzvrt.Note("mode=" + mode + " type=" + dk.typ)
+	if err := g.addFile("root.json", sch); err != nil {
+		zzvrt.Note("generator error: " + err.Error())
+		zzvrt.Check("C09.siblings.valid-schema-generates", false)
+		return
+	}
+	src := string(g.Sources()["root.go"])
+	zzvrt.Emit("root.go", src)
+	h := zzvrt.Stage2(src)
+	if !zzvrt.S2OK(h) {
+		zzvrt.Note(zzvrt.S2Errors(h))
+		zzvrt.Check("C09.siblings.emitted-code-compiles", false)
+		return
+	}
+	d := zzvrt.NewDoc()
+	zzTypeCorrectObject(d)
+	zzvrt.Assume(zzvrt.And(zzvrt.DIs(d, "p", zzvrt.KObject), zzvrt.DIs(d, "q", zzvrt.KObject)))
+	for _, m := range []string{"p/v", "q/v"} {
+		zzvrt.Assume(zzvrt.Or(zzvrt.DIs(d, m, zzvrt.KAbsent), zzvrt.DIs(d, m, zzvrt.KNull)))
+	}
+	r, accepted, ok := zzRunT("C09.siblings", h, g.getRootTypeName(sch, "root.json"), "json", d)
+	if !ok {
+		return
+	}
+	zzvrt.Cover("siblings:" + mode + "/" + dk.typ)
+	zzvrt.Check("C09.siblings.absent-or-null-accepted", accepted)
+	if !accepted {
+		return
+	}
+	same := func(path string, want interface{}) bool {
+		switch w := want.(type) {
+		case float64:
+			return zzvrt.OInt(r, path) == int64(w)
+		case string:
+			return zzvrt.OStr(r, path) == w
+		case bool:
+			return zzvrt.OBool(r, path) == w
+		}
+		return false
+	}
+	zzvrt.Check("C09.siblings.each-position-keeps-its-own-default", zzvrt.And(same("P/V", dk.a), same("Q/V", dk.b)))
 }
